@@ -97,12 +97,26 @@ func runC38(repo, coq, js string) {
 		}
 		anchors[a] = id
 	}
+	sort.Ints(secure)
+	// second family: clock-derived values, bare Reader.Read, swallowed random-source errors
+	bareNode, clock, sites := c38Weak(p, g, append(append([]int{}, sources...), direct...), secure)
+	_ = clock
+	g.finish()
+	if bareNode != 0 {
+		badSet[bareNode] = true
+	}
+	var barrier []int
+	for id, fn := range g.Fn {
+		if clockBarrier(PkgOf(fn)) {
+			barrier = append(barrier, id)
+		}
+	}
+	sort.Ints(barrier)
 	var bad []int
 	for id := range badSet {
 		bad = append(bad, id)
 	}
 	sort.Ints(bad)
-	sort.Ints(secure)
 	// every direct use of math/rand by a source function, for the report
 	var uses []map[string]string
 	for _, s := range sources {
@@ -113,7 +127,7 @@ func runC38(repo, coq, js string) {
 		}
 	}
 	f := &Facts{Property: "C38", Repo: repo, Names: g.Names, Pos: g.Pos, Pkg: g.Pkg, Succ: g.Succ, Sites: g.sites(),
-		Sources: sources, Bad: bad, Allowed: nil, AllowedWhy: nil, Anchors: anchors, Secure: secure, Direct: direct,
-		Extra: map[string]interface{}{"key_packages": c38KeyPkgs, "key_files": c38KeyFiles, "source_packages": srcPkgs, "direct_uses": uses}}
+		Sources: sources, Bad: bad, Allowed: nil, AllowedWhy: nil, Anchors: anchors, Secure: secure, Direct: direct, Clock: clock, Barrier: barrier, RandErr: sites,
+		Extra: map[string]interface{}{"key_packages": c38KeyPkgs, "key_files": c38KeyFiles, "source_packages": srcPkgs, "direct_uses": uses, "clock_barrier_packages": c38ClockBarriers}}
 	writeFacts(f, "C38_uses", coq, js)
 }
